@@ -16,6 +16,7 @@ type pspec struct {
 	fail              string
 	slow              string
 	ek                string // "" (plain errors) | "dl" (errors caused by the component's own context.DeadlineExceeded)
+	pv                string // "" | err | int: the value of the planned panic
 	rg                string // "" | a registered gun factory (real.go)
 	su                string // "" (all instances at once) | step<ms> | inf<ms>
 }
@@ -29,6 +30,9 @@ func (p pspec) String() string {
 		p.inst, p.ammo, p.shots, p.per, p.prov, p.agg, p.gun, p.fail, p.slow)
 	if p.ek != "" {
 		s += ",ek:" + p.ek
+	}
+	if p.pv != "" {
+		s += ",pv:" + p.pv
 	}
 	if p.rg != "" {
 		s += ",rg:" + p.rg
@@ -121,6 +125,18 @@ func systematic() []planT {
 		}
 	}
 	add("none", 0, with(func(p *pspec) { p.fail = "panic@1"; p.prov = "late.err" }))
+	// a panic value need not be a text: an error, an int
+	for _, pv := range []string{"err", "int"} {
+		for _, k := range []int{1, 3} {
+			add("none", 2, with(func(p *pspec) { p.fail = fmt.Sprintf("panic@%d", k); p.pv = pv; p.ammo = 4; p.shots = 4 }))
+		}
+		add("none", 2, with(func(p *pspec) { p.fail = "panic@2"; p.pv = pv; p.per = 0; p.inst = 3 }), basePool())
+	}
+	// cancelled before the run starts: whatever fails then, the caller gets the cancellation error
+	for _, f := range []string{"newgun@0", "warmup", "sched@1"} {
+		add("pre", 2, with(func(p *pspec) { p.fail = f; p.per = 0 }))
+		add("pre", 2, basePool(), with(func(p *pspec) { p.fail = f; p.per = 0 }))
+	}
 
 	// the same faults with errors whose CAUSE is a context-kind error that is not the engine's (the component's own
 	// deadline): errutil.IsCtxError must compare with the error of the engine's context, not with "some context error"
@@ -437,7 +453,7 @@ func class(input, obs string) string {
 				tags = append(tags, t)
 			case strings.HasSuffix(t, ".ctxw"):
 				tags = append(tags, t)
-			case strings.HasPrefix(t, "rg:") || strings.HasPrefix(t, "su:"):
+			case strings.HasPrefix(t, "rg:") || strings.HasPrefix(t, "su:") || strings.HasPrefix(t, "pv:"):
 				tags = append(tags, t)
 			}
 		}
